@@ -20,6 +20,9 @@ def run(ctx):
     ctx.gen_tables = extract.all_tables()
     import translate                 # decision-logic functions re-translated from the source and proved equal to the model
     _tm, _tt = translate.wire(ctx, "C14")
+    import oncode_thms               # the property theorems stated on the regenerated definitions themselves (Props/OnCode)
+    _om, _ot = oncode_thms.wire("C14")
+    _tm, _tt = _tm + _om, _tt + _ot
     ctx.prove(["TLX.Props.C14"] + _tm)
     ctx.require_theorems(_tt)
     ctx.require_theorems(THEOREMS)
